@@ -15,6 +15,11 @@ A formula-level case (slice, lenconcat, case, join, subst) with key `lit` takes 
 the formulas as quoted literals instead of being read from variables (see setup / quoted); the records stay filed under the
 formula as written with variables, so the same oracle reads them.  LOOKALIKES = texts that look like something else (error
 codes, doubled and lone quote characters, TRUE, 1e3, =1+1) and are texts all the same.
+A formula-level case with key `via` takes another route for its values: `cell` - every variable of the case is written as a
+cell A1, B1, .. (the variable names in sorted order) whose value the host's callCellValue listener answers; `nest` (not join) -
+every text variable that quoted() can write is taken off the parser and resolved by a callVariable listener that evaluates
+the quoted literal ON THE SAME PARSER in the middle of the evaluation that asked for it.  The model request of a via case is
+that of the case without the key.
 """
 import re
 import string
@@ -46,7 +51,19 @@ RULE = ('text: seeded strings of length 0..60 (6 % empty, 6 % one character, 4 %
         'variable name (whole words, one regular-expression pass) in every formula; numbers, blanks, lists and the texts that cannot be written stay variables '
         '(all variables are set as well); the model request carries the formulas as written with literals; the records are filed '
         'under the formulas as written with variables and judged by the same oracle, whose message then also lists the literal '
-        'formulas. Counts below: quick (thorough), each multiplied by scale. '
+        'formulas. Route cell (key via = cell): every case at an index divisible by 11 of that same list that is a slice, lenconcat, case, '
+        'join or subst case is given once more; the variable names of the case, sorted, are mapped to the cells A1, B1, .. L1 and written '
+        'in place of the names (whole words, not followed by `(`, one regular-expression pass) in every formula; the one '
+        'callCellValue listener of the shared parser answers setter(value) from a table filled per case with the Python values '
+        '(texts, numbers, blanks, lists alike; any other label: None), the variables are set as well. Route nest (key via = nest): every case at an index '
+        'divisible by 13 that is a slice, lenconcat, case or subst case (not join) is given once more; the formulas stay as written '
+        'with variables, but every variable whose value is a text that quoted() can write is removed from Parser.variables and '
+        'resolved by the parser\'s callVariable listener, which evaluates the quoted literal with parse() ON THE SAME PARSER while the '
+        'outer evaluation is in progress and hands the inner result to its setter; the other variables are set as usual. + 30 fixed '
+        'via cases: for each of the texts "", "abc", " a " and each of the two routes slice with n = 0, 1, 3 (st = 1), '
+        'SUBSTITUTE("a-b-c","-",text) and lenconcat of the text and "xy". The records are filed under the formulas as written with '
+        'variables and judged by the same oracle (its message then names the route); the model request is that of the case without '
+        'the key via - the model sees the values as variables whatever the route. Counts below: quick (thorough), each multiplied by scale. '
         'slice [LEFT(s,n), RIGHT(s,n), MID(s,st,n), MID(s,1,n), LEFT(s,n)&RIGHT(s,LEN(s)-n), LEN(s), LEFT(s), RIGHT(s)]: 9 fixed; '
         '80 (3000) strings with every count 0..len+5 and -1, -2, -len, -len-1, -1000, st seeded in 1..len+2; 1500 (12000) '
         'strings with up to 3 counts (seeded in 0..len+5, one of 0/1/len-1/len/len+1, a negative one down to -len-2) and st '
@@ -72,8 +89,8 @@ RULE = ('text: seeded strings of length 0..60 (6 % empty, 6 % one character, 4 %
         'Every kind but codechar_range is compared with the model, formula by formula (result/error records, exact in type; the '
         'parse trees are ignored; a model answer "no opinion" accepts anything). The oracle judges neither fn, MID(s,st,n) with '
         'st < 1, CHAR(0), subst with an empty or self-overlapping old text, TEXTJOIN over lists holding integers, nor the '
-        'auxiliary formulas LEN(s), LEFT(s), RIGHT(s), a&b, LEN(a), LEN(b), CHAR(n), xa&xb. Quick at scale 1: about 15800 cases, about 1770 of them by the literal route '
-        '(slice about 7400, subst about 2860, fn 1665, case about 1780, join about 1150, lenconcat about 600, codechar 319). Non-trivial = slice: '
+        'auxiliary formulas LEN(s), LEFT(s), RIGHT(s), a&b, LEN(a), LEN(b), CHAR(n), xa&xb. Quick at scale 1: about 17700 cases, about 1770 of them by the literal route, about 1100 by the cell route and about 860 by the nested route '
+        '(slice about 8500, subst about 3290, fn 1665, case about 2030, join about 1240, lenconcat about 690, codechar 319). Non-trivial = slice: '
         'len(s) >= 2; lenconcat: both sides non-empty; case: some function changes the string; codechar: n > 127; '
         'codechar_range: always (counts once per range); join: >= 2 non-blank items and a blank or a nested list; subst: '
         'non-empty old text occurring in the string; fn: at least one argument. When a proof or the correspondence broke: the '
@@ -94,6 +111,12 @@ TRUSTED = ['Python str methods (slicing, replace, join, upper/lower/title, strip
            'variables, so is everything that is not text) and put it in place of the variable name by one re.sub over the '
            'formula written with variables (names as whole words, not followed by `(`; an inserted literal is not scanned again); '
            'control characters, line feeds and non-ASCII characters are written into the literal as they are',
+           'routes cell and nest: the shared parser carries one callCellValue listener (answers from the table _cellvals, cleared and '
+           'filled by impl() before every formula-level case, whatever its route) and one callVariable listener (acts only on the '
+           'names in _nestvals, i.e. during a nest case; for every other name it sets nothing); the rewriting of names into cell '
+           'labels is one re.sub as for route lit (CELL_NAMES holds 12 labels, A1..L1); in a nest case the inner evaluation is '
+           'Parser.parse of a quoted literal, whose result is trusted to be the text (C05) - texts quoted() cannot write stay '
+           'ordinary variables; the model has neither route and answers for the variable formulas',
            'fn cases: any Python exception of a direct call counts as the error its message names, else #ERROR!, and must be the '
            'error the model raises; a returned value must match the model value exactly in type (floats within 4 ulp)']
 ASSUMPTIONS = ['"leading/trailing/inner characters" are those Python slicing s[:n], s[len-n:], s[st-1:st-1+n] designates '
@@ -126,7 +149,11 @@ ASSUMPTIONS = ['"leading/trailing/inner characters" are those Python slicing s[:
                'a text is a text whatever it spells and however it arrives: one that spells an error code, a logical, a number or '
                'a formula (LOOKALIKES) is subject to the same identities as any other, and a text written into the formula as a '
                'quoted literal is the same text as that value held by a variable - between delimiters of one kind the other quote '
-               'character, doubled or alone, is an ordinary character']
+               'character, doubled or alone, is an ordinary character',
+               'the identities are about the text VALUE whatever its route: a text (the empty one and one with blanks at its ends '
+               'included) answered by the host\'s cell listener, or handed over by a callVariable listener that obtained it from a '
+               'nested evaluation on the same parser, is the same operand as that text held by a variable - an empty text answered '
+               'for a cell is an empty text, not a blank']
 EXHAUSTIVE = {'quick': False, 'thorough': False}
 
 ASCII_L = string.ascii_letters
